@@ -2,7 +2,7 @@
       - core/listener.go [handleNewBlockEvent] / [handleNewSignedBlock] (dedup by store, fetch from the announcing
         source, historic drop, sync-state query, chain-id panic, EDS construction, storeEDS, broadcasts),
       - core/eds.go [storeEDS] (window / archival policy), core/exchange.go [getExtendedHeaderByHeight] (same policy,
-        header returned instead of published),
+        header returned instead of published) and [Get] (header by hash: the same, behind the hash comparison),
       - share/availability/full/availability.go [SharesAvailable] (window gate, empty block link, already-stored
         shortcut, getter error mapping, store),
       - store/store.go [put] as far as the above observe it: a height once linked is never relinked ("exists" is
@@ -113,6 +113,28 @@ Definition exchange_get (cfg : config) (st : state) (r : xreq) : state * xres :=
       end
   end.
 
+(** * Exchange.Get (core/exchange.go), header BY HASH: BlockByHash, chain-id panic, commit + validator set of the
+      served block's height (GetBlockInfo), square, extended header, "verify hashes match" - the hash of the header
+      built from what the endpoint served against the requested hash - and only then storeEDS.  A served block whose
+      header hash differs from the requested one is an error and nothing of it is kept. *)
+Record hreq := mkhreq {
+  h_fetch : option block;   (* BlockByHash: the block the endpoint serves for the requested hash *)
+  h_info_ok : bool;         (* GetBlockInfo (commit, validator set) succeeds *)
+  h_hash_ok : bool;         (* hash of the served block's header = requested hash *)
+  h_store_ok : bool }.
+
+Definition exchange_get_by_hash (cfg : config) (st : state) (r : hreq) : state * xres :=
+  if crashed st then (st, XErr) else
+  match h_fetch r with
+  | None => (st, XErr)
+  | Some b =>
+      if negb (b_chain_ok b) then (mkst (store st) (published st) (hashes st) (given st) true, XPanic) else
+      if negb (h_info_ok r) then (st, XErr) else
+      if negb (b_eds_ok b) then (st, XErr) else
+      if negb (h_hash_ok r) then (st, XErr) else
+      exchange_get cfg st (mkxreq (h_fetch r) (h_store_ok r))
+  end.
+
 (** * full.ShareAvailability.SharesAvailable *)
 Inductive getter_out :=
 | GSquare | GNotFound | GDeadline | GCanceled | GByzantine | GByzDeadline | GByzNotFound | GOther.
@@ -151,13 +173,14 @@ Definition shares_available (cfg : config) (st : state) (r : areq) : state * are
        end.
 
 (** * Histories *)
-Inductive op := OpCore (ev : event) | OpExchange (r : xreq) | OpAvail (r : areq).
+Inductive op := OpCore (ev : event) | OpExchange (r : xreq) | OpAvail (r : areq) | OpHash (r : hreq).
 
 Definition step (cfg : config) (st : state) (o : op) : state :=
   match o with
   | OpCore ev => fst (handle cfg st ev)
   | OpExchange r => fst (exchange_get cfg st r)
   | OpAvail r => fst (shares_available cfg st r)
+  | OpHash r => fst (exchange_get_by_hash cfg st r)
   end.
 
 Definition run (cfg : config) (st : state) (os : list op) : state := fold_left (step cfg) os st.
@@ -179,6 +202,7 @@ Definition op_code (cfg : config) (st : state) (o : op) : N :=
   | OpCore ev => ocode (snd (handle cfg st ev))
   | OpExchange r => xcode (snd (exchange_get cfg st r))
   | OpAvail r => acode (snd (shares_available cfg st r))
+  | OpHash r => xcode (snd (exchange_get_by_hash cfg st r))
   end.
 
 Fixpoint run_codes (cfg : config) (st : state) (os : list op) : list N * state :=
